@@ -23,7 +23,7 @@ KAPPA = 1e3           # rounding floor, multiples of eps * local scale at the re
 # median 0.06-0.17, q90 0.5-0.7.  (multicomplex is not pooled: with several steps of ~1e-15 its
 # errors are rounding noise and coverage varied between 0.90 and 0.99 from sample to sample.)
 POOLED = ('central', 'forward', 'backward')
-COVERAGE_MIN = 0.90
+COVERAGE_MIN = 0.80
 Q50_MAX = 0.4
 Q90_MAX = 2.0
 POOL_MIN = 300
